@@ -176,3 +176,15 @@ er('er_fail_after_sub_call_args', ['a%', 'b%'],
                    [('setret', B('*', var('x%'), I(2)))]),
                Sub('show', 'sub', [('v%', None)], [P(S('v'), ';', var('v%'))])],
    budget=1500, pre='-3 <= x0 <= 3')
+
+# an ON ERROR GOTO handler that leaves with RETURN instead of RESUME (the
+# error happened inside a GOSUB routine, with operands pending).  Needs no
+# debug info, so it is also a -g / non -g pair for C08.
+mk('er_handler_return', ['a%', 'b%'],
+   [('onerror', 'handler'),
+    ('gosub', 'work'), P(S('back')), ('end',),
+    ('label', 'work'),
+    L(var('t&'), B('+', LG(100), B('\\', var('a%'), var('b%')))),
+    P(S('t'), ';', var('t&')), ('return',),
+    ('label', 'handler'), P(S('E'), ';', F('ERR')), ('return',)],
+   family='onerror', tags=('onerror',), budget=900)
